@@ -163,11 +163,12 @@ mod arith {
         ($modname:ident, $variant:ident, $carrier:ty, $ity:expr, $wide:ty, $is64:expr) => {
             mod $modname {
                 use super::*;
-                fn kernel(first: &$carrier, second: &$carrier, operation: IntegerOperation) -> Literal {
-                    integer_arithmetic_result!($variant, first, second, operation)
+                // same context as a dispatch arm of `integer_arithmetic`: the enclosing function returns Result<_, i32>
+                fn kernel(first: &$carrier, second: &$carrier, operation: IntegerOperation) -> Result<Literal, i32> {
+                    Ok(integer_arithmetic_result!($variant, first, second, operation))
                 }
-                fn val(r: Literal) -> $wide {
-                    let Literal::Integer(l) = r else { panic!("result is not an integer literal") };
+                fn val(r: Result<Literal, i32>) -> $wide {
+                    let Ok(Literal::Integer(l)) = r else { panic!("result is not an integer literal (the only defined trap is division by zero)") };
                     // result is carried by the same type (no implicit conversion)
                     assert!(mtype(l) == Some($ity));
                     mval(l) as $wide
@@ -236,11 +237,11 @@ mod arith {
                     let b: $carrier = kani::any();
                     assert!(val(kernel(&a, &b, IntegerOperation::Mul)) == a.wrapping_mul(b) as $wide);
                 }
-                /// the one defined trap: division / remainder by zero panics
+                /// the one defined trap: division / remainder by zero never yields a value (it panics, or ends the run with a status)
                 #[kani::proof] #[kani::should_panic]
-                fn div_by_zero_traps() { let a: $carrier = kani::any(); let _ = kernel(&a, &0, IntegerOperation::Div); }
+                fn div_by_zero_traps() { let a: $carrier = kani::any(); if kernel(&a, &0, IntegerOperation::Div).is_err() { panic!("trap reported as an exit status") } }
                 #[kani::proof] #[kani::should_panic]
-                fn rem_by_zero_traps() { let a: $carrier = kani::any(); let _ = kernel(&a, &0, IntegerOperation::Mod); }
+                fn rem_by_zero_traps() { let a: $carrier = kani::any(); if kernel(&a, &0, IntegerOperation::Mod).is_err() { panic!("trap reported as an exit status") } }
             }
         };
     }
@@ -254,17 +255,21 @@ mod arith {
     arith_harnesses!(u64_, UInt64, u64, IntegerType::UInt64, i128, true);
 
     // MIN / -1 wraps, MIN % -1 == 0, at every signed width (named in the property)
+    fn k8(a: &i8, b: &i8, op: IntegerOperation) -> Result<Literal, i32> { Ok(integer_arithmetic_result!(Int8, a, b, op)) }
+    fn k16(a: &i16, b: &i16, op: IntegerOperation) -> Result<Literal, i32> { Ok(integer_arithmetic_result!(Int16, a, b, op)) }
+    fn k32(a: &i32, b: &i32, op: IntegerOperation) -> Result<Literal, i32> { Ok(integer_arithmetic_result!(Int32, a, b, op)) }
+    fn k64(a: &i64, b: &i64, op: IntegerOperation) -> Result<Literal, i32> { Ok(integer_arithmetic_result!(Int64, a, b, op)) }
     #[kani::proof]
     fn min_div_minus_one_wraps() {
-        let k = |r: Literal| match r { Literal::Integer(l) => mval(l), _ => panic!() };
-        assert!(k(integer_arithmetic_result!(Int8, (&i8::MIN), (&-1i8), IntegerOperation::Div)) == i8::MIN as i128);
-        assert!(k(integer_arithmetic_result!(Int16, (&i16::MIN), (&-1i16), IntegerOperation::Div)) == i16::MIN as i128);
-        assert!(k(integer_arithmetic_result!(Int32, (&i32::MIN), (&-1i32), IntegerOperation::Div)) == i32::MIN as i128);
-        assert!(k(integer_arithmetic_result!(Int64, (&i64::MIN), (&-1i64), IntegerOperation::Div)) == i64::MIN as i128);
-        assert!(k(integer_arithmetic_result!(Int8, (&i8::MIN), (&-1i8), IntegerOperation::Mod)) == 0);
-        assert!(k(integer_arithmetic_result!(Int16, (&i16::MIN), (&-1i16), IntegerOperation::Mod)) == 0);
-        assert!(k(integer_arithmetic_result!(Int32, (&i32::MIN), (&-1i32), IntegerOperation::Mod)) == 0);
-        assert!(k(integer_arithmetic_result!(Int64, (&i64::MIN), (&-1i64), IntegerOperation::Mod)) == 0);
+        let k = |r: Result<Literal, i32>| match r { Ok(Literal::Integer(l)) => mval(l), _ => panic!("MIN / -1 must wrap, not trap") };
+        assert!(k(k8(&i8::MIN, &-1, IntegerOperation::Div)) == i8::MIN as i128);
+        assert!(k(k16(&i16::MIN, &-1, IntegerOperation::Div)) == i16::MIN as i128);
+        assert!(k(k32(&i32::MIN, &-1, IntegerOperation::Div)) == i32::MIN as i128);
+        assert!(k(k64(&i64::MIN, &-1, IntegerOperation::Div)) == i64::MIN as i128);
+        assert!(k(k8(&i8::MIN, &-1, IntegerOperation::Mod)) == 0);
+        assert!(k(k16(&i16::MIN, &-1, IntegerOperation::Mod)) == 0);
+        assert!(k(k32(&i32::MIN, &-1, IntegerOperation::Mod)) == 0);
+        assert!(k(k64(&i64::MIN, &-1, IntegerOperation::Mod)) == 0);
     }
 }
 
